@@ -13,6 +13,11 @@ SRC = (" The Numba kernels are additionally TRANSLATED from the current source o
 E2E = (" Properties/EndToEnd.lean closes the chain: the generated definitions are run over ANY history tree (srcRun, srcRunHll, srcRunHH), proved to represent the model's "
        "evaluation of that history, and the property theorem is restated for them (C01_lower_src/C01_upper_src, C02_setOnly_src, C03_getitem_src, C04_getitem_src, C05_self_src, C18_add_mono_src).")
 
+E2ELOG = (" Properties/EndToEndLog.lean closes the chain for the log sketches: ANY history tree run with the GENERATED CountMinLog16/8 add and merge methods "
+          "(whole kernels inside; _merge_log16/8 translated with the cell body as a checked pure function of the two cells) yields a table reachable by contract-respecting steps "
+          "(srcRunLog16_reach / srcRunLog8_reach), for any _log_counter behaviour meeting LcOK (the model's does for all draws), so C06_lower_src / C06_exact_src hold for the code as it reads. "
+          "harness/floattr.py translates the float code of _counter2value and of the merge cell body to Lean Float programs and Properties/SrcFloat.lean proves them definitionally equal to "
+          "the float mirror (counter2valueF, mergeLogCellF) that the all-pairs correspondence evaluates.")
 SCHEMA = (" The class-level code (constructor validation, what save() writes and load() copies back, the shared-memory byte layouts of __init__ and attach_existing_shm) is TRANSLATED "
           "from the current source on every run (harness/schema.py → Model/Generated/Schema.lean) and proved to be the modelled one for all shapes (Properties/SrcSchema.lean).")
 
@@ -83,7 +88,7 @@ CHECKS.update({
              "collision-free keys; rand_fresh proves the t-th draw handed out is element t of the concatenated batches (never recycled, none skipped); step_unbias/chain_mean prove over an "
              "arbitrary field that the expected decoded value after n unit adds is true count + n until the ceiling, given P(rand < base^-c') = base^-c'. The run ties _log_counter/_rand to "
              "the model with placed draws and a seeded Numba generator across refills."
-             + SRC + "",
+             + SRC + E2ELOG + "",
         tech="Lean 4 proof (history invariants over log contracts; outcome-tree expectation over a field; _rand state machine) + correspondence with placed draws / seeded refills",
         note=TB + " PRNG uniformity/independence is an assumption; the Monte-Carlo comparison in the thorough tier is a refutation search, not part of the proof.",
         ref="§4 C06"),
@@ -92,7 +97,7 @@ CHECKS.update({
              "nearest_ge for ANY decode that is linear up to num_reserved+1 and strictly increasing; decS_ok shows the exact scaled decode of the code's formula is one; nearestFast_eq ties the "
              "driver's evaluator to the specification. The run compares the real merge on ALL 256×256 log8 counter pairs (and 65536 + sampled log16 pairs) with the Lean float mirror, the Lean exact "
              "specification and an independent exact oracle."
-             + SRC + "",
+             + SRC + E2ELOG + "",
         tech="Lean 4 proof (nearest-counter specification over exact scaled integers) + all-pairs differential correspondence",
         note=TB + " The code evaluates the log merge in float64; ties within 1e-9 of the gap between neighbouring decoded values accept either neighbour.",
         ref="§4 C09"),
